@@ -38,7 +38,7 @@ PLAN = dict(
                  "NTT120 modules exist only where avx2 is available (the host has it); buffers sized by hand: 32*N bytes per DFT limb, 16*N per big limb, 16-byte aligned",
                  "primes Q1..Q4 from q120_common.h; roots of unity, inverses and the reference transform are re-derived by the oracle"],
     quick=_jobs("quick"), thorough=_jobs("thorough"),
-    fuzz=desc_fuzz("C03", fix=dict(k=(0, 10))),
+    fuzz=desc_fuzz("C03", fix=dict(k=(0, 10)), runs=80000),
     required_classes=dict(all=["k:%d" % k for k in range(0, 17)] + ["mode:" + m for m in MODES] + ["fam:" + f for f in FAMS]
                           + ["fam2:" + f for f in FAMS]
                           + ["kernel:q120_ntt_bb_avx2", "kernel:q120_intt_bb_avx2", "conv-oracle:schoolbook", "conv-oracle:ntt",
